@@ -120,7 +120,8 @@ where
 {
     // Just decent size bounds checks to ensure we have a lot of space.
     assert!(M::FORMATTED_SIZE < BUFFER_SIZE - 2);
-    debug_assert!(bytes.len() >= BUFFER_SIZE);
+    // NOTE: the sign has already been written, `bytes` starts after it.
+    debug_assert!(bytes.len() >= BUFFER_SIZE - 1);
 
     // Config options
     let format = NumberFormat::<{ FORMAT }> {};
@@ -192,7 +193,8 @@ where
 
     // Just decent size bounds checks to ensure we have a lot of space.
     assert!(M::FORMATTED_SIZE < BUFFER_SIZE - 2);
-    debug_assert!(bytes.len() >= BUFFER_SIZE);
+    // NOTE: the sign has already been written, `bytes` starts after it.
+    debug_assert!(bytes.len() >= BUFFER_SIZE - 1);
 
     // Config options
     let format = NumberFormat::<{ FORMAT }> {};
